@@ -310,6 +310,13 @@ int __wrap_epoll_ctl(int epfd, int op, int fd, struct epoll_event *ev)
 	struct vk_ep *ep = ep_of(epfd);
 	int i;
 
+	if (vk_yield_hook != NULL) {
+		/* multi-threaded run: a kick (MOD arming EPOLLONESHOT) is logged and is a yield point */
+		if (op == EPOLL_CTL_MOD && ev != NULL && (ev->events & EPOLLONESHOT)) {
+			vk_yield_hook();
+			vk_trace("Kk %d", epfd);
+		}
+	}
 	n_ctl++;
 	if (vk_faults.eintr_ctl && n_ctl == vk_faults.eintr_ctl) {
 		errno = EINTR;
@@ -361,6 +368,22 @@ int __wrap_epoll_ctl(int epfd, int op, int fd, struct epoll_event *ev)
 static int cmp_ent(const void *a, const void *b)
 {
 	return ((const struct vk_ent *)a)->fd - ((const struct vk_ent *)b)->fd;
+}
+
+void (*vk_block_hook)(int (*ready)(void *), void *ctx, long long deadline);
+void (*vk_yield_hook)(void);
+
+static uint32_t ep_ready_bits(const struct vk_ent *e);
+
+static int ep_ready_cb(void *ctx)
+{
+	struct vk_ep *ep = ctx;
+	int i;
+
+	for (i = 0; i < ep->n; i++)
+		if (ep_ready_bits(&ep->ents[i]))
+			return 1;
+	return 0;
 }
 
 static uint32_t ep_ready_bits(const struct vk_ent *e)
@@ -450,6 +473,12 @@ static int vk_epoll_wait_common(const char *name, int epfd, struct epoll_event *
 
 	rot = ep->n ? vk_rotation(vk_nwait) % ep->n : 0;
 	for (pass = 0; pass < 2; pass++) {
+		if (pass) {
+			/* the interest set may have been changed by other threads while this one was blocked */
+			memcpy(sorted, ep->ents, ep->n * sizeof(struct vk_ent));
+			qsort(sorted, ep->n, sizeof(struct vk_ent), cmp_ent);
+			rot = ep->n ? vk_rotation(vk_nwait) % ep->n : 0;
+		}
 		nr = 0;
 		for (i = 0; i < ep->n && nr < maxevents; i++) {
 			struct vk_ent *s = &sorted[(i + rot) % ep->n];
@@ -475,6 +504,7 @@ static int vk_epoll_wait_common(const char *name, int epfd, struct epoll_event *
 		/* nothing ready: sleep until the timeout or the earliest armed timer descriptor */
 		{
 			long long wake = timeout_ns < 0 ? -1 : vk_clock + timeout_ns;
+			int hooked = vk_block_hook != NULL;
 
 			for (i = 0; i < ep->n; i++) {
 				struct vk_fd *v = vk_get(sorted[i].fd);
@@ -483,6 +513,11 @@ static int vk_epoll_wait_common(const char *name, int epfd, struct epoll_event *
 				    (sorted[i].events & EPOLLIN) && sorted[i].enabled &&
 				    (wake < 0 || v->deadline < wake))
 					wake = v->deadline;
+			}
+			if (hooked) {
+				/* multi-threaded run: the scheduler decides when this thread continues */
+				vk_block_hook(ep_ready_cb, ep, wake);
+				continue;
 			}
 			if (wake < 0)
 				vk_end("HANG");
@@ -539,6 +574,22 @@ static short poll_revents(int fd, short events)
 	if (c & VK_ERR)
 		r |= POLLERR;
 	return r;
+}
+
+struct poll_ctx {
+	struct pollfd	*pfds;
+	nfds_t		nfds;
+};
+
+static int poll_ready_cb(void *ctx)
+{
+	struct poll_ctx *pc = ctx;
+	nfds_t i;
+
+	for (i = 0; i < pc->nfds; i++)
+		if (pc->pfds[i].fd >= 0 && poll_revents(pc->pfds[i].fd, pc->pfds[i].events))
+			return 1;
+	return 0;
 }
 
 static int vk_poll_common(const char *name, struct pollfd *pfds, nfds_t nfds, long long timeout_ns)
@@ -612,9 +663,15 @@ static int vk_poll_common(const char *name, struct pollfd *pfds, nfds_t nfds, lo
 			nr++;
 	}
 	if (nr == 0 && timeout_ns != 0) {
+		if (vk_block_hook != NULL) {
+			struct poll_ctx pc = { pfds, nfds };
+
+			vk_block_hook(poll_ready_cb, &pc, timeout_ns < 0 ? -1 : vk_clock + timeout_ns);
+		} else {
 		if (timeout_ns < 0)
 			vk_end("HANG");
 		vk_clock += timeout_ns;
+		}
 		for (i = 0; i < nfds; i++) {
 			pfds[i].revents = pfds[i].fd < 0 ? 0 : poll_revents(pfds[i].fd, pfds[i].events);
 			if (pfds[i].revents)
@@ -670,6 +727,10 @@ ssize_t __wrap_read(int fd, void *buf, size_t count)
 	if (v == NULL) {
 		errno = EBADF;
 		return -1;
+	}
+	if (vk_yield_hook != NULL) {
+		vk_yield_hook();
+		vk_trace("Fr %d", fd);
 	}
 	switch (v->kind) {
 	case VK_EVENTFD:
@@ -731,6 +792,10 @@ ssize_t __wrap_write(int fd, const void *buf, size_t count)
 	if (v == NULL) {
 		errno = EBADF;
 		return -1;
+	}
+	if (vk_yield_hook != NULL) {
+		vk_yield_hook();
+		vk_trace("Fw %d", fd);
 	}
 	switch (v->kind) {
 	case VK_EVENTFD:
